@@ -1616,6 +1616,26 @@ impl<'a, const C: usize, const R: usize, T: 'a + Copy + std::fmt::Debug> Layout<
     /// custom event cannot be returned to the caller; a custom release is kept as a pending
     /// custom release and reported by a following tick, so that it is not lost.
     fn dequeue_overflow(&mut self, overflow: Queued) {
+        // Actions waiting in the action queue (switch cases, decomposed chords) belong to events
+        // that were processed before this one. Run them first, as `tick` does; otherwise a release
+        // processed here could come before the press it is meant to release.
+        while let Some(Some((coord, delay, action, layer_stack))) = self.action_queue.pop_front() {
+            let custom = match layer_stack {
+                Some(layer_stack) => {
+                    self.do_action(action, coord, delay, false, &mut layer_stack.into_iter())
+                }
+                None => self.do_action(
+                    action,
+                    coord,
+                    delay,
+                    false,
+                    &mut self.trans_resolution_layer_order().into_iter().skip(1),
+                ),
+            };
+            if let CustomEvent::Release(value) = custom {
+                let _ = self.states.push(State::SeqCustomActive(value));
+            }
+        }
         if let CustomEvent::Release(value) = self.dequeue(overflow) {
             let _ = self.states.push(State::SeqCustomActive(value));
         }
